@@ -757,3 +757,13 @@ M("C08", "rematch-without-end-anchor", "util/ssl_match_hostname.py",
   "    return re.match(r\"\\.\".join(pats), hostname, re.IGNORECASE)", rule="C08-R1")
 M("C08", "dollar-instead-of-Z", "util/ssl_match_hostname.py", "+ r\"\\Z\", re.IGNORECASE)", "+ r\"$\", re.IGNORECASE)", rule="C08-R1")
 M("C08", "last-label-dropped", "util/ssl_match_hostname.py", "    for frag in remainder:\n        pats.append(re.escape(frag))", "    for frag in remainder[:-1]:\n        pats.append(re.escape(frag))", rule="C08-R1")
+
+
+# --------------------------------------------------------------------------- behaviour-preserving maintenance changes written by independent sub-agents
+# (given only the property text; each was checked by them against the pinned suite and a differential sweep).  They must stay silent.
+def B(prop, n):
+    MUTANTS.append(dict(prop=prop, name=f"benign-agent:{prop}-{n}", patch=f"selftest/patches/bn_{prop}_{n}.diff", rule=None, benign=True))
+
+
+for _n in range(1, 7):
+    B("C19", _n)
